@@ -28,6 +28,7 @@ OUTROOT = os.environ.get("QV_OUT", VERIF)  # self-test runs redirect evidence/vi
 
 class Ctx:
     def __init__(self, pid, tier):
+        self.floor_failures = []
         self.pid = pid
         self.tier = tier
         self.obligations = []
@@ -65,9 +66,10 @@ class Ctx:
         self.notes.append(text)
 
     def floor(self, rule, what, got, minimum):
+        """a rule that matches fewer instances than were confirmed by hand must not pass vacuously: recorded, and raised as analysis
+        broken at the end of the run (deferred so that the remaining rules still run and can name the construct that went missing)"""
         if got < minimum:
-            raise AnalysisBroken("%s: %s — %d instance(s) found, floor confirmed by hand is %d"
-                                 % (rule, what, got, minimum))
+            self.floor_failures.append("%s: %s — %d instance(s) found, floor confirmed by hand is %d" % (rule, what, got, minimum))
 
 
 def load_known():
@@ -153,6 +155,7 @@ DEPENDS = {
     "C07": ["C03"],               # the exit drain uses the hand-over chain
     "C08": ["C01"],               # 'delivered intact and in order' rests on the bounded queue
     "C11": ["C01"],               # 'a statement that fits the current buffer' is decided by the bounded queue's space guard
+    "C15": ["C14"],               # time rotation renames/names/bounds files through the same _rotate_files machinery as size rotation
 }
 
 
@@ -189,12 +192,21 @@ def run_property(pid, tier, only=None, quiet=False):
             load_rules(dep).run(Prefixed(ctx, pid))
         if not ctx.obligations:
             raise AnalysisBroken("no obligation was generated for %s" % pid)
+        if ctx.floor_failures:
+            raise AnalysisBroken("; ".join(ctx.floor_failures))
     except AnalysisBroken as e:
         msg = str(e)
-        print("ANALYSIS-BROKEN property=%s %s" % (pid, msg.replace("\n", " | ")[:1500]))
-        if only is None:
-            write_evidence(pid, tier, ctx, time.time() - t0, 0, "analysis-broken: " + msg[:500])
-        return 2
+        # Obligations evaluated before the analysis broke stand on their own: a violation among them is reported as such (exit 1) and
+        # the break is named next to it; with no violation the outcome is 'analysis broken' (exit 2) — never a pass.
+        broken_msg = msg.replace("\n", " | ")[:1500]
+        if only is None and any(not o["ok"] for o in ctx.obligations):
+            print("ANALYSIS-INCOMPLETE property=%s %s" % (pid, broken_msg))
+            ctx.note("analysis incomplete: " + broken_msg[:400])
+        else:
+            print("ANALYSIS-BROKEN property=%s %s" % (pid, broken_msg))
+            if only is None:
+                write_evidence(pid, tier, ctx, time.time() - t0, 0, "analysis-broken: " + msg[:500])
+            return 2
     except Exception:
         traceback.print_exc()
         print("ANALYSIS-BROKEN property=%s internal error in the checker" % pid)
